@@ -192,9 +192,17 @@ def run(chk):
             if c[0] >= 0 and c[1] != 0 and c[2] >= 0:
                 cfgs.append(c)
         text = "".join("%Count" + cfg_args(rng, c) + "_" for c in cfgs)
+        reg2 = None
+        if rng.random() < 0.35:
+            # one alias used several times (and through a second alias): every occurrence must be an
+            # independent instance, exactly like the pattern written out k times
+            cfgs = [cfgs[0]] * k
+            reg2 = impl.registry(aliases={"Num": "%Count" + cfg_args(rng, cfgs[0]), "Num2": "%Num()"})
+            text = "".join(rng.choice(["%Num()_", "%Num2()_", "%Lower{%Num()}_"]) for _ in range(k))
+            stats["via"]["alias_twice"] = stats["via"].get("alias_twice", 0) + 1
         calls = gen_calls(rng, rng.choice([2, 4, 7, 12]))
         with impl.quiet_streams():
-            pat = impl.compile_template(text)
+            pat = impl.compile_template(text, reg2)
         files = [impl.mkfile(r, rel) for r, rel in calls]
         obs, used = [], []
         for f in files:
